@@ -4,7 +4,7 @@ For a property, the rule is re-run on copies of the *facts* (the typed program a
 tree - nothing is compiled or executed) in which exactly one construct inside one of the functions the rule
 analysed has been perturbed: an integer literal changed by one, an arithmetic or comparison operator replaced by
 its neighbour, two adjacent statements exchanged, a branch condition negated, two same-typed arguments of a call or
-two same-typed field initialisers of a struct literal exchanged.  A
+two same-typed field initialisers of a struct literal exchanged, a statement executed for its effect removed.  A
 perturbation after which the rule reports something it did not report before is *noticed*.  The audit reports
 the share of noticed perturbations and lists the ones that went unnoticed, each with file:line - those are either
 irrelevant to this property (an opcode constant does not matter to a checksum ledger) or a blind spot worth a
@@ -27,10 +27,13 @@ def sites_of(body):
             elif k == 'If': out.append((path, 'negate'))
             elif k == 'Call' and len(x.get('args', [])) >= 2 and _same_typed_pair(x['args']) is not None: out.append((path, 'argswap'))
             elif k == 'Adt' and not x.get('is_enum') and _same_typed_pair([fd['e'] for fd in x.get('fields', [])]) is not None: out.append((path, 'fieldswap'))
-            elif k == 'Block' and len(x.get('stmts', [])) >= 2:
+            elif k == 'Block' and len(x.get('stmts', [])) >= 1:
                 for i in range(len(x['stmts']) - 1):
                     a, b = x['stmts'][i], x['stmts'][i + 1]
                     if a.get('k') == 'Expr' and b.get('k') == 'Expr': out.append((path + ['stmts', i], 'swap'))
+                for i, a in enumerate(x['stmts']):
+                    # a statement evaluated for its effect only (a call, an assignment): what if it were forgotten?
+                    if a.get('k') == 'Expr' and isinstance(a.get('e'), dict) and a['e'].get('ty') in ('()', None) and not _is_panic(a['e']): out.append((path + ['stmts', i], 'drop'))
             for kk, v in x.items():
                 if kk in ('sp', 'ty', 'from'): continue
                 walk(v, path + [kk])
@@ -38,6 +41,10 @@ def sites_of(body):
             for i, v in enumerate(x): walk(v, path + [i])
     walk(body, [])
     return out
+
+def _is_panic(e):
+    s = json.dumps(e)
+    return 'core::panicking::' in s
 
 def _same_typed_pair(es):
     """indices of the first two expressions of identical (non-unit) type that are not syntactically equal"""
@@ -60,6 +67,11 @@ def _get(root, path):
 def apply(body, path, kind):
     """returns (perturbed deep copy of the body, description) or None"""
     b = copy.deepcopy(body)
+    if kind == 'drop':
+        blk = _get(b, path[:-2]); i = path[-1]
+        sp = (blk['stmts'][i].get('e') or {}).get('sp')
+        del blk['stmts'][i]
+        return b, 'statement removed', sp
     if kind == 'swap':
         blk = _get(b, path[:-2]); i = path[-1]
         blk['stmts'][i], blk['stmts'][i + 1] = blk['stmts'][i + 1], blk['stmts'][i]
